@@ -464,14 +464,16 @@ func c02Linear(p *core.Program, r *core.Report, nk *eng.NodeKinds, s *eng.Rewrit
 			}
 		}
 	}
-	if clause == nil {
-		r.Unk("R2.3", s.Key+"/no dynamic child dropped", pos, "clause of the matched kind not found")
-		return
+	// the region in which the matched node's children are tested: the clause, or — when the
+	// kind was established by a comma-ok assertion and guard clauses — the function body
+	var region ast.Node = s.Func.Body
+	if clause != nil {
+		region = clause
 	}
 	al := s.Aliases
 	inspected := map[string]bool{} // origin paths subjected to a kind test
 	rangeVars := map[types.Object]string{}
-	ast.Inspect(clause, func(nd ast.Node) bool {
+	ast.Inspect(region, func(nd ast.Node) bool {
 		switch x := nd.(type) {
 		case *ast.RangeStmt:
 			if id, ok := x.Value.(*ast.Ident); ok {
